@@ -59,6 +59,16 @@ pub fn identifier_table(exclude_self_variant: bool) -> Vec<Module> {
         defs.extend(marker);
         out.push(Module::simple(&format!("Identifiers{j}"), defs));
     }
+    // ENUMERATED items whose name mangling is not idempotent (hyphens next to capitals, inner
+    // capitals), each used as DEFAULT: the constant must name the variant the enum really has
+    let odd = ["x-Y-z", "ab-c-d", "tS", "a-B", "aBC", "x1-y2", "q-R-s-T", "ab"];
+    let mut defs = vec![Def { name: "Odd-Items".into(), tag: None, ty: Type::Enumerated { items: odd.iter().map(|n| (n.to_string(), None)).collect(), root: None } }];
+    defs.push(Def {
+        name: "Uses-Odd".into(),
+        tag: None,
+        ty: Type::Sequence(Fields { comps: odd.iter().enumerate().map(|(i, n)| c(&format!("d{i}"), Type::Ref("Odd-Items".into()), Presence::Default(DefaultVal { lit: Lit::EnumItem(n.to_string()), via: None }))).collect(), root: None }),
+    });
+    out.push(Module::simple("Identifiers-Defaults", defs));
     out
 }
 
